@@ -200,8 +200,10 @@ func (h History) Ledger() []Track {
 						in = true
 					}
 				}
-				if d, ok := dormant[f.Path]; ok {
-					d.cameIn = d.cameIn || in
+				// a file renamed in from outside the parser filter is a different file from the one
+				// deleted at this path earlier (same rule as for a rename onto a deleted path): it
+				// starts a new track and leaves the deleted file's track dormant
+				if d, ok := dormant[f.Path]; ok && !in {
 					d.revived = true
 					d.touched++
 					cur[f.Path] = d
